@@ -407,17 +407,29 @@ package datastore
 //@            callarg(Read, 0, 3).Priority == 0 && callarg(Read, 0, 3).Owner == "" && callarg(Read, 0, 3).PriorityCount == 2147483647 &&
 //@            len(callarg(Read, 0, 4)) == 1
 //@   loop 2 invariant updates_after_starts_not_applied: midCycle(old(ntrace()), dm)
-//@   loop 2 invariant not_applied_only_when_running_differs [C15]: len(callres(Read)) > 0 && !callres(EqualTypedValues, 0) &&
-//@            callarg(EqualTypedValues, 0, 0) == callres(TypedValueToYANGType, 0, 0) && callarg(EqualTypedValues, 0, 1) == callres(Value, 0, 0)
+//@   loop 2 invariant not_applied_only_when_running_differs [C15]: len(callres(Read)) > 0 && !callres(equalDeviationValues, 0) &&
+//@            callarg(equalDeviationValues, 0, 1) == callres(TypedValueToYANGType, 0, 0) &&
+//@            (callarg(equalDeviationValues, 0, 2) == callres(Value, 0, 0) || callarg(equalDeviationValues, 0, 2) == callres(TypedValueToYANGType, 1, 0)) &&
+//@            callarg(TypedValueToYANGType, 1, 0) == callres(Value, 0, 0)
 //@   loop 3 invariant updates_after_starts_lower_intents: midCycle(old(ntrace()), dm)
-//@   loop 4 invariant overruled_only_when_values_differ [C15]: !callres(EqualTypedValues, 1) &&
-//@            callarg(EqualTypedValues, 1, 0) == callres(TypedValueToYANGType, 0, 0) && callarg(EqualTypedValues, 1, 1) == callres(TypedValueToYANGType, 1, 0)
+//@   loop 4 invariant overruled_only_when_values_differ [C15]: !callres(equalDeviationValues, 1) &&
+//@            callarg(equalDeviationValues, 1, 1) == callres(TypedValueToYANGType, 0, 0) && callarg(equalDeviationValues, 1, 2) == callres(TypedValueToYANGType, 2, 0)
 //@   loop 4 invariant updates_after_starts_overruled: midCycle(old(ntrace()), dm) && $n_loop3 >= 0 && $n_loop3 < $len_loop3
 //@   loop 5 invariant updates_after_starts_missing: midCycle(old(ntrace()), dm)
 //@   loop 6 invariant updates_after_starts_missing_intents: midCycle(old(ntrace()), dm)
 //@   loop 7 invariant updates_after_starts_missing_clients: midCycle(old(ntrace()), dm) && $n_loop6 >= 0 && $n_loop6 < $len_loop6
 //@   loop 8 invariant ends_last: ntrace() >= old(ntrace()) && allAtMost(old(ntrace()), ntrace(), 2) && ordered(old(ntrace()), ntrace()) && startedIfClients(old(ntrace()), dm) &&
 //@            (len($visited) > 0 ==> devPhase(emitted(ntrace() - 1)) == 2)
+
+// two values of one path: by value, except that the entries of a leaf-list the user does not order have no order
+//@ pred unorderedLists(se, a, b) = se.GetLeaflist() != nil && !se.GetLeaflist().IsUserOrdered && a.GetLeaflistVal() != nil && b.GetLeaflistVal() != nil
+//@ func equalDeviationValues
+//@   props C15
+//@   nosafety the elements of a leaf-list value come off the wire non-nil; only the verdict is claimed
+//@   ensures by_value_unless_unordered_lists [C15]: !unorderedLists(schemaElem, a, b) ==> result == utils.EqualTypedValues(a, b)
+//@   ensures lists_of_different_size_differ [C15]: unorderedLists(schemaElem, a, b) && len(a.GetLeaflistVal().Element) != len(b.GetLeaflistVal().Element) ==> !result
+//@   loop 0 invariant true
+//@   loop 1 invariant true
 
 // the order in which the intents of one path are ranked: priority value first, then timestamp (strict, so the ruling
 // intent is the one with the lowest priority value, the oldest among equals)
